@@ -19,27 +19,42 @@ ListGrid == [kind : {"KS"}, items : UpTo2({<<29, 32>>, <<23, 65>>, <<4588, 0>>, 
 
 \* ---------------------------------------------------------------- ClientHello views over presence combinations
 \* Optional members of a ClientHello as Go's clientHelloMsg knows them; each is "absent", present with a "small"
-\* value, or (where the grammar and Go's parser allow an empty body/list) present "empty".
-Members == {"sni", "ocsp", "groups", "points", "ticket", "sigs", "sigscert", "reneg", "ems", "alpn", "sct", "versions",
+\* value, or (where the grammar and Go's parser allow an empty body/list) present "empty".  List members also come
+\* "special": with code points that have a meaning of their own or no meaning at all - a GREASE value and a duplicate in
+\* supported_groups / signature_algorithms / supported_versions, a GREASE key share.  cipher_suites (never absent) is
+\* "small", or carries TLS_EMPTY_RENEGOTIATION_INFO_SCSV 0x00ff (which Go's parser turns into secureRenegotiationSupported,
+\* with or without a renegotiation_info extension next to it), TLS_FALLBACK_SCSV 0x5600, both, a GREASE value, a duplicate.
+Members == {"suites", "sni", "ocsp", "groups", "points", "ticket", "sigs", "sigscert", "reneg", "ems", "alpn", "sct", "versions",
             "cookie", "shares", "pskmodes", "earlydata", "quic", "sid"}
-Vals(m) == IF m \in {"ticket", "reneg", "shares", "quic"} THEN {"absent", "small", "empty"} ELSE {"absent", "small"}
+Vals(m) == CASE m = "suites" -> {"small", "scsv", "fallback", "both", "grease", "dup"}
+             [] m = "shares" -> {"absent", "small", "empty", "special"}
+             [] m \in {"ticket", "reneg", "quic"} -> {"absent", "small", "empty"}
+             [] m \in {"groups", "sigs", "versions"} -> {"absent", "small", "special"}
+             [] OTHER -> {"absent", "small"}
+SuiteList(v) == CASE v = "scsv" -> <<4865, 49199, 47, 255>>
+                  [] v = "fallback" -> <<4865, 49199, 47, 22016>>
+                  [] v = "both" -> <<4865, 255, 22016, 47>>
+                  [] v = "grease" -> <<2570, 4865, 49199, 47>>
+                  [] v = "dup" -> <<4865, 49199, 4865, 47>>
+                  [] OTHER -> <<4865, 49199, 47>>
 Seq32(k) == [i \in 1..32 |-> (i * 7 + k) % 256]
 ExtOf(m, v) ==
   IF v = "absent" THEN <<>> ELSE
   CASE m = "sni" -> Ext(0, Vec16(<<0>> \o Vec16(<<97, 46, 101, 120, 97, 109, 112, 108, 101>>)))
     [] m = "ocsp" -> Ext(5, <<1, 0, 0, 0, 0>>)
-    [] m = "groups" -> Ext(10, Vec16(U16List(<<29, 23>>)))
+    [] m = "groups" -> Ext(10, Vec16(U16List(IF v = "special" THEN <<2570, 29, 23, 29>> ELSE <<29, 23>>)))
     [] m = "points" -> Ext(11, Vec8(<<0>>))
     [] m = "ticket" -> Ext(35, IF v = "empty" THEN <<>> ELSE <<1, 2, 3, 4>>)
-    [] m = "sigs" -> Ext(13, Vec16(U16List(<<1027, 2052>>)))
+    [] m = "sigs" -> Ext(13, Vec16(U16List(IF v = "special" THEN <<1027, 6682, 2052, 1027>> ELSE <<1027, 2052>>)))
     [] m = "sigscert" -> Ext(50, Vec16(U16List(<<1025>>)))
     [] m = "reneg" -> Ext(65281, Vec8(IF v = "empty" THEN <<>> ELSE <<5, 6, 7, 8>>))
     [] m = "ems" -> Ext(23, <<>>)
     [] m = "alpn" -> Ext(16, Vec16(ProtoList(<< <<104, 50>>, <<104, 116, 116, 112, 47, 49, 46, 49>> >>)))
     [] m = "sct" -> Ext(18, <<>>)
-    [] m = "versions" -> Ext(43, Vec8(U16List(<<772, 771>>)))
+    [] m = "versions" -> Ext(43, Vec8(U16List(IF v = "special" THEN <<10794, 772, 771, 772>> ELSE <<772, 771>>)))
     [] m = "cookie" -> Ext(44, Vec16(<<9, 8, 7>>))
-    [] m = "shares" -> Ext(51, Vec16(IF v = "empty" THEN <<>> ELSE U16(29) \o Vec16(Seq32(3))))
+    [] m = "shares" -> Ext(51, Vec16(IF v = "empty" THEN <<>>
+                                     ELSE (IF v = "special" THEN U16(2570) \o Vec16(<<0>>) ELSE <<>>) \o U16(29) \o Vec16(Seq32(3))))
     [] m = "pskmodes" -> Ext(45, Vec8(<<1>>))
     [] m = "earlydata" -> Ext(42, <<>>)
     [] m = "quic" -> Ext(57, IF v = "empty" THEN <<>> ELSE <<1, 2, 64, 100>>)
@@ -50,16 +65,17 @@ ExtOrder == <<"sni", "ocsp", "groups", "points", "ticket", "sigs", "sigscert", "
 EncodeCH(f) ==
   LET exts == Flat([i \in DOMAIN ExtOrder |-> ExtOf(ExtOrder[i], f[ExtOrder[i]])])
       sid == IF f.sid = "absent" THEN <<>> ELSE Seq32(1)
-      body == U16(771) \o Seq32(0) \o Vec8(sid) \o Vec16(U16List(<<4865, 49199, 47>>)) \o Vec8(<<0>>)
+      body == U16(771) \o Seq32(0) \o Vec8(sid) \o Vec16(U16List(SuiteList(f.suites))) \o Vec8(<<0>>)
               \o (IF exts = <<>> THEN <<>> ELSE Vec16(exts))
   IN <<1>> \o U24(Len(body)) \o body
 \* all-pairs (K = 2) / all-triples (K = 3) coverage: every combination of values of any K members occurs, the other
 \* members being all absent or all present
-K == IF Full THEN 3 ELSE 2
-Bases == {[m \in Members |-> "absent"], [m \in Members |-> "small"]}
-Sub == IF Full THEN {{a, b, c} : a \in Members, b \in Members, c \in Members} ELSE {{a, b} : a \in Members, b \in Members}
-CHFields == UNION { UNION { { [m \in Members |-> IF m \in D THEN c[m] ELSE base[m]] :
-                               c \in {x \in [D -> {"absent", "small", "empty"}] : \A m \in D : x[m] \in Vals(m)} } : D \in Sub } : base \in Bases }
+Bases == {[m \in Members |-> IF m = "suites" THEN "small" ELSE "absent"], [m \in Members |-> "small"]}
+Over(base, a, va) == [base EXCEPT ![a] = va]
+\* all-pairs (quick) / all-triples (Full) coverage: every combination of values of any 2 (3) members occurs, the other
+\* members being all absent or all present
+Pairs == UNION { {Over(Over(base, a, va), b, vb) : va \in Vals(a), vb \in Vals(b)} : base \in Bases, a \in Members, b \in Members }
+CHFields == IF Full THEN UNION { {Over(p, c, vc) : vc \in Vals(c)} : p \in Pairs, c \in Members } ELSE Pairs
 CHGrid == {[kind |-> "CHW", f |-> f, raw |-> EncodeCH(f)] : f \in CHFields}
 ASSUME \A g \in CHGrid : ValidClientHello(g.raw)
 
